@@ -226,5 +226,40 @@ def run(chk, prog):
         early = [x for f, x in rd_main if sline <= x["line"] < loop["line"]]
         chk.check(not early, "R6", A.loc(mainf, sigs[0][1]), "the flag is not read between installing the handler and the loop: a signal during set-up gives zero iterations and the final record",
                   "flag:read-during-setup:%d" % len(early))
+    # ---- R7: writing the final record cannot end in an uncaught exception of the program's own making -----------------------------------------
+    # after an interrupt the loop may have run zero times: the final block then writes a record for a state that has already been written (same
+    # step, same time).  Whatever main calls in the final block (transitively, within the program) must not `throw`, unless main catches it.
+    by_sig = prog.functions
+    idx_main = A.index(mainf)
+
+    def throws(sig, seen):
+        """(function, throw node) of the first throw-expression reachable from the function `sig` through calls into the program"""
+        if sig in seen or sig not in by_sig:
+            return None
+        seen.add(sig)
+        f_ = by_sig[sig]
+        roots_ = ([f_["body"]] if f_.get("body") else []) + [i_["expr"] for i_ in f_.get("inits", []) if isinstance(i_.get("expr"), dict)]
+        for r_ in roots_:
+            fidx_ = A.index(f_)
+            for y in A.walk(r_):
+                if y.get("k") == "CXXThrowExpr" and y.get("c"):
+                    if not A.enclosing(fidx_, y, {"CXXTryStmt"}):
+                        return f_, y
+                if y.get("callee_sig") and y.get("callee_in_root"):
+                    t_ = throws(y["callee_sig"], seen)
+                    if t_ is not None and not A.enclosing(fidx_, y, {"CXXTryStmt"}):
+                        return t_
+        return None
+    n7 = 0
+    for y in A.walk(fb["then"]):
+        if y.get("k") in ("CXXMemberCallExpr", "CallExpr") and y.get("callee_sig") and y.get("callee_in_root"):
+            if A.enclosing(idx_main, y, {"CXXTryStmt"}):
+                continue
+            t_ = throws(y["callee_sig"], set())
+            n7 += 1
+            chk.check(t_ is None, "R7", A.loc(mainf, y), "final block: %s() cannot raise an exception of the program (%s)" % ((y.get("callee") or "").split("::")[-1],
+                      "no throw-expression reachable" if t_ is None else "throw at %s" % A.loc(t_[0], t_[1])),
+                      "final:may-throw:%s" % (y.get("callee") or "").split("::")[-1])
+    chk.floor("R7-final-block-calls", n7, 6)
     chk.notes.append("C14: handler effect, writers/readers of the abort flag over the whole program, loop-body exits, paths after the loop, append agreement. "
                      "A static non-interference argument over all interrupt points; no instrumentation needed. NOT decided: HDF5 library internals.")
